@@ -49,6 +49,9 @@ pub struct FCfg {
     pub via_builder: bool,
     pub timescale: u32,
     pub frag_ms: u32,
+    /// builder path only: also call setters that belong to OTHER codecs (bit 0: with_vps, 1: with_av1_sequence_header,
+    /// 2: with_vp9_config, 3: with_sps + with_pps); the configured codec must still decide the sample entry
+    pub stray: u8,
 }
 
 #[derive(Clone, Debug)]
@@ -81,6 +84,19 @@ pub fn build_frag(c: &FCfg) -> Result<Result<FragmentedMuxer, String>, String> {
                 1 => b = b.with_vps(c.vps.clone()).with_sps(c.sps.clone()).with_pps(c.pps.clone()),
                 2 => b = b.with_av1_sequence_header(c.av1.clone()),
                 _ => b = b.with_vp9_config(c.vp9.to_cfg()),
+            }
+            let codec = c.codec % 4;
+            if c.stray & 1 != 0 && codec != 1 {
+                b = b.with_vps(vec![0x40, 0x01, 0x0c, 0x01]);
+            }
+            if c.stray & 2 != 0 && codec != 2 {
+                b = b.with_av1_sequence_header(c.av1.clone());
+            }
+            if c.stray & 4 != 0 && codec != 3 {
+                b = b.with_vp9_config(c.vp9.to_cfg());
+            }
+            if c.stray & 8 != 0 && codec >= 2 {
+                b = b.with_sps(vec![0x67, 0x42, 0x00, 0x1e]).with_pps(vec![0x68, 0xce]);
             }
             b.new_with_fragment().map_err(|e| format!("{}", e))
         } else {
